@@ -1,11 +1,14 @@
 #!/bin/bash
 # usage: bin/seedrun.sh <patch.diff> <Cxx> [Cyy ...]   apply a seeded change to /repo, run the quick checks, undo it
+# The change is undone on every exit path (also when this script is killed by a timeout).
 P=$1; shift
 git -C /repo apply "$P" || { echo "patch does not apply"; exit 2; }
+trap 'git -C /repo checkout -- .' EXIT INT TERM
 for c in "$@"; do
-  out=$(cd /verif && timeout 1500 bin/check $c --tier quick 2>&1)
+  out=$(cd /verif && timeout ${SEED_TIMEOUT:-900} bin/check $c --tier quick 2>&1)
+  rc=$?
   v=$(echo "$out" | grep -c "^VIOLATION")
   nf=$(echo "$out" | grep -c "no-failing-input-found")
+  if [ $rc -eq 124 ]; then echo "$c: TIMED OUT after ${SEED_TIMEOUT:-900}s (no verdict)"; continue; fi
   echo "$c: violations=$v (no-failing-input-found: $nf) $(echo "$out" | grep -E '^(OK|VIOLATION)' | head -2 | tr '\n' ' ' | cut -c1-160)"
 done
-git -C /repo checkout -- .
